@@ -18,12 +18,14 @@ import Driver.Sort
 import Driver.Seg
 import Driver.Val
 import Driver.Table
+import Driver.TableIdx
 import Driver.MMap
 import Driver.StdWrap
 import Driver.StdHist
 import Driver.Ver
 import Driver.Ledger
 import Driver.HTLedger
+import Driver.MMLedger
 import Driver.OpenBytes
 /-!
   momo_model: reads operation lines on stdin, prints one output line per operation.
@@ -34,6 +36,7 @@ open Driver
 def engines : List (String × Engine) := [
   ("ledger", Driver.Ledger.engine),
   ("htledger", Driver.HTLedger.engine),
+  ("mmledger", Driver.MMLedger.engine),
   ("openbytes", Driver.OpenBytes.engine),
   ("stdwrap", Driver.StdWrap.engine),
   ("stdhist", Driver.StdHist.engine),
@@ -57,6 +60,7 @@ def engines : List (String × Engine) := [
   ("seg", Driver.Seg.engine),
   ("val", Driver.Val.engine),
   ("table", Driver.Table.engine),
+  ("tableidx", Driver.TableIdx.engine),
   ("mmap", Driver.MMap.engine)
 ]
 
